@@ -27,6 +27,9 @@ CFG = dict(
     free={('abs', 'double (double)'): 'NumTools__abs', ('SMALL',): 'NumConstants__SMALL',
           ('permuteCopy', 5): 'LU__permuteCopy', ('isSquare',): 'MatrixTools__isSquare', ('getId',): 'MatrixTools__getId'},
     throws=set(),
+    # the elimination arithmetic is abstracted: * and / on doubles are uninterpreted functions, so every fact decided here holds for
+    # any (functional) arithmetic, IEEE included; + - and comparisons stay bit-precise
+    uf_ops={'*': 'verif_uf_mul', '/': 'verif_uf_div'},
 )
 STRUCTS = [LUD]
 PRE_STRUCTS = r'''
@@ -108,8 +111,28 @@ FUNCS = [
                 2: L('k', 'self->n', inv=['X->rows == self->n && X->cols == nx']),
                 3: L('i', 'self->n', inv=['i >= k + 1', 'k < self->n'], dec='self->n - i'),
                 4: L('j', 'nx'),
-                5: dict(assigns='k', invariant=['k <= self->n', 'k >= 1 || k == 0', 'X->rows == self->n && X->cols == nx'], decreases='k'),
+                5: dict(assigns='k', invariant=['k <= self->n', 'k >= 1', 'X->rows == self->n && X->cols == nx'], decreases='k'),
                 6: L('j', 'nx'), 7: L('i', 'k'), 8: L('j', 'nx')}),
+]
+
+FUNCS += [
+    dict(cname='MatrixTools__isSquare', qname='bpp::MatrixTools::isSquare', targs=['bpp::Matrix<double>'], requires=['MAT_FRESH(A)'],
+         ensures=['__CPROVER_return_value == (A->rows == A->cols)'], assigns=[]),
+    dict(cname='MatrixTools__getId', qname='bpp::MatrixTools::getId', targs=['bpp::RowMatrix<double>'], requires=['MAT_FRESH(O)'],
+         ensures=['verif_exc == 0', 'O->rows == n && O->cols == n'], assigns=['O->rows', 'O->cols'],
+         loops={1: L('i', 'n'), 2: L('j', 'n')}),
+    dict(cname='MatrixTools__inv', qname='bpp::MatrixTools::inv', targs=['double'],
+         requires=['MAT_FRESH(A)', 'MAT_FRESH(O)', 'A->rows >= 1'],
+         ensures=['verif_exc == 0 || verif_exc == EXC_DimensionException || verif_exc == EXC_ZeroDivisionException',
+                  # a non-square matrix is refused; a singular one gives a zero-division error, never a silent answer of the wrong shape
+                  '(verif_exc == EXC_DimensionException) == (A->rows != A->cols)',
+                  'verif_exc == 0 ==> (O->rows == A->rows && O->cols == A->cols)',
+                  'verif_exc != 0 ==> (O->rows == __CPROVER_old(O->rows) && O->cols == __CPROVER_old(O->cols))'],
+         assigns=['O->rows', 'O->cols', 'verif_exc']),
+    dict(cname='MatrixTools__det', qname='bpp::MatrixTools::det', targs=['double'],
+         requires=['MAT_FRESH(A)'],
+         ensures=['verif_exc == 0 || verif_exc == EXC_DimensionException', '(verif_exc == EXC_DimensionException) == (A->rows != A->cols)'],
+         assigns=['verif_exc']),
 ]
 
 LEMMAS = []
@@ -118,3 +141,77 @@ TRUSTED = ['abstract Matrix interface model (fresh cell per access, shape only)'
 ASSUMPTIONS = ['solve/inv: square system with n >= 1 and a right-hand side with at least one column (quantifier of C05)']
 NOT_DECIDED = ['P.A = L.U, residual bounds of solve/inv, determinant identities: floating-point numerical analysis, no contract available',
                'solve(vector) is never instantiable (calls b.dim1())']
+
+# ---- bounded runs: n <= 3 concrete, entries symbolic doubles ---------------------------------------------------------
+BH = r'''
+#define FOR(i, n) for (unsigned long i = 0; i < (unsigned long)(n); ++i)
+static double nd_fin(void) { double v = nondet_double(); __CPROVER_assume(v >= -1e6 && v <= 1e6); return v; }
+static void mk(MatD *m, unsigned long r, unsigned long c) { m->rows = r; m->cols = c; FOR(i, MAT_B) FOR(j, MAT_B) MDP(m, i, j) = (i < r && j < c) ? nd_fin() : nondet_double(); }
+#define SAMED(a, b) ((a) == (b) || ((a) != (a) && (b) != (b)))
+'''
+H_FACT = BH + r'''
+void h(void) { MatD A; mk(&A, N, N); MatD A0 = A; verif_exc = 0;
+  LUDecomposition_double lu; LUDecomposition_double__ctor_1(&lu, &A);
+  __CPROVER_assert(verif_exc == 0, "factorisation does not raise");
+  __CPROVER_assert(lu.m == N && lu.n == N && lu.LU.rows == N && lu.LU.cols == N, "LU has the shape of A");
+  FOR(i, MAT_B) FOR(j, MAT_B) __CPROVER_assert(SAMED(MD(A, i, j), MD(A0, i, j)), "A is not modified");
+  /* P is a row permutation ... */
+  __CPROVER_assert(lu.piv.n == N, "pivot vector has one entry per row");
+  FOR(i, N) { __CPROVER_assert(lu.piv.d[i] < N, "pivot entries are row indices"); FOR(j, N) if (i < j) __CPROVER_assert(lu.piv.d[i] != lu.piv.d[j], "pivot vector is a permutation (no repeated row)"); }
+  /* ... whose sign is the one used by the determinant */
+  int inv = 0; FOR(i, N) FOR(j, N) if (i < j && lu.piv.d[i] > lu.piv.d[j]) inv++;
+  __CPROVER_assert(lu.pivsign == ((inv % 2) ? -1 : 1), "pivsign is the sign of the pivot permutation");
+  const MatD *Lm = LUDecomposition_double__getL(&lu);
+  FOR(i, N) FOR(j, N) __CPROVER_assert(i < j ? MDP(Lm, i, j) == 0.0 : (i == j ? MDP(Lm, i, j) == 1.0 : SAMED(MDP(Lm, i, j), MD(lu.LU, i, j))), "L is unit lower triangular and carries the multipliers");
+  const MatD *Um = LUDecomposition_double__getU(&lu);
+  FOR(i, N) FOR(j, N) __CPROVER_assert(i <= j ? SAMED(MDP(Um, i, j), MD(lu.LU, i, j)) : MDP(Um, i, j) == 0.0, "U is upper triangular");
+  /* partial pivoting: every multiplier has magnitude at most 1 when the pivot is non-zero (|L(i,j)| <= 1) is an arithmetic fact: not checked */
+  double dv = LUDecomposition_double__det(&lu);
+  double s = (double)lu.pivsign; FOR(j, N) s = verif_uf_mul(s, MD(lu.LU, j, j));
+  __CPROVER_assert(SAMED(dv, s), "det is pivsign times the product of the pivots");
+  __CPROVER_assert(0, "verif_canary reachable after call"); }
+'''
+H_SOLVE = BH + r'''
+void h(void) { MatD A; mk(&A, N, N); verif_exc = 0;
+  LUDecomposition_double lu; LUDecomposition_double__ctor_1(&lu, &A);
+  MatD B, X; mk(&B, NB, NX); mk(&X, MAT_B, MAT_B); MatD X0 = X, B0 = B;
+  double mn = MD(lu.LU, 0, 0) < 0 ? -MD(lu.LU, 0, 0) : MD(lu.LU, 0, 0);
+  for (unsigned long i = 1; i < N; ++i) { double c = MD(lu.LU, i, i) < 0 ? -MD(lu.LU, i, i) : MD(lu.LU, i, i); if (c < mn) mn = c; }
+  double r = LU__solve(&lu, &B, &X);
+  if (NB != N) { __CPROVER_assert(verif_exc == EXC_BadIntegerException, "a right-hand side of the wrong height is refused");
+    FOR(i, MAT_B) FOR(j, MAT_B) __CPROVER_assert(SAMED(MD(X, i, j), MD(X0, i, j)) && X.rows == X0.rows && X.cols == X0.cols, "refused call writes nothing"); }
+  else {
+    /* a smallest pivot below the documented threshold gives a zero-division error, never a silently wrong answer */
+    __CPROVER_assert((verif_exc == EXC_ZeroDivisionException) == (mn < 1e-6), "ZeroDivisionException iff the smallest pivot magnitude is below 1e-6");
+    __CPROVER_assert(verif_exc == 0 || verif_exc == EXC_ZeroDivisionException, "no other exception");
+    if (verif_exc == 0) { __CPROVER_assert(SAMED(r, mn), "the returned indicator is the smallest pivot magnitude"); __CPROVER_assert(X.rows == N && X.cols == NX, "X has the shape n x nx"); }
+    else FOR(i, MAT_B) FOR(j, MAT_B) __CPROVER_assert(SAMED(MD(X, i, j), MD(X0, i, j)) && X.rows == X0.rows && X.cols == X0.cols, "singular case writes nothing");
+  }
+  FOR(i, MAT_B) FOR(j, MAT_B) __CPROVER_assert(SAMED(MD(B, i, j), MD(B0, i, j)), "B is not modified");
+  __CPROVER_assert(0, "verif_canary reachable after call"); }
+'''
+H_PERM = BH + r'''
+void h(void) { MatD B, Y; mk(&B, N, NX); mk(&Y, MAT_B, MAT_B); PivVec pv; PivVec__ctor_1(&pv, N); FOR(i, N) { pv.d[i] = nondet_ulong(); __CPROVER_assume(pv.d[i] < N); }
+  verif_exc = 0; LU__permuteCopy(&B, &pv, 0, NX - 1, &Y);
+  __CPROVER_assert(Y.rows == N && Y.cols == NX, "permuteCopy: shape");
+  FOR(i, N) FOR(j, NX) __CPROVER_assert(SAMED(MD(Y, i, j), MD(B, pv.d[i], j)), "permuteCopy copies row piv[i] of the right-hand side into row i");
+  __CPROVER_assert(0, "verif_canary reachable after call"); }
+'''
+def generate_jobs(unit, tier):
+    jobs = []
+    bodies = [f['cname'] for f in FUNCS if f['cname'] not in ('MatrixTools__inv', 'MatrixTools__det', 'MatrixTools__isSquare', 'MatrixTools__getId')]
+    nmax = 5 if tier == 'thorough' else 3
+    mb = nmax + 1
+    def J(jid, text, defs, unwind=None, timeout=600, doc=''):
+        unwind = unwind or (mb + 3)
+        jobs.append(dict(id=jid, kind='bounded', mode='bounded', entry='h', bodies=bodies, harness=text, unwind=unwind, timeout=timeout,
+                         defs='#define MAT_B %d\n#define VEC_BCAP %d\n' % (mb + 1, mb + 1) + defs, bound=defs.replace('\n', ' ') + '; entries symbolic doubles in [-1e6, 1e6]; unwinding %d' % unwind, doc=doc))
+    for n in range(1, nmax + 1):
+        J('b_factor_n%d' % n, H_FACT, '#define N %d\n' % n, doc='pivot vector is a permutation with sign pivsign; L unit lower / U upper triangular; det = pivsign * prod pivots')
+        for nx in (1, 2):
+            J('b_permuteCopy_n%d_x%d' % (n, nx), H_PERM, '#define N %d\n#define NX %d\n' % (n, nx), doc='permuteCopy copies A(piv[i], j)')
+            for nb in sorted({n, n + 1, max(n - 1, 0)}):
+                if nb == 0: continue
+                J('b_solve_n%d_b%d_x%d' % (n, nb, nx), H_SOLVE, '#define N %d\n#define NB %d\n#define NX %d\n' % (n, nb, nx),
+                  doc='solve: refusal of a wrong height, singularity guard iff min pivot < 1e-6, indicator = min pivot, shape')
+    return jobs
